@@ -254,6 +254,20 @@ func applyStream(cfg applyCfg, n int) {
 			ops = []string{pick(`{"op":"test","path":"/src/o/x","value":1}`, `{"op":"add","path":"/src/o/y","value":2}`, `{"op":"copy","from":"/src","path":"/src/o/self"}`),
 				`{"op":"copy","from":"/src","path":"/c1"}`, change, `{"op":"copy","from":"/src","path":` + pick(`"/c2"`, `"/z/-"`, `"/c1"`) + `}`}
 		}
+		if cfg.limitMode == 1 && chance(0.004) {
+			// a source of 64 KiB and more that no operation has looked into, copied once or twice
+			bigCopy = true
+			n := 65536 + rng.Intn(9000) - pick64int(0, 0, 2, 40)
+			src := `"` + strings.Repeat(pick("s", "<", "ab"), n)[:n] + `"`
+			if chance(0.4) {
+				src = `[` + src + `,{"k":1}]`
+			}
+			doc = []byte(`{"src":` + src + `,"z":0}`)
+			ops = []string{`{"op":"copy","from":"/src","path":"/c1"}`}
+			if chance(0.4) {
+				ops = append(ops, `{"op":"copy","from":"/src","path":"/c2"}`)
+			}
+		}
 		if cfg.limitMode == 1 {
 			a.limit = int64(pick64(0, 1, 4, 5, 10, 20, 40, 80, 1000000))
 			if bigCopy || chance(0.4) {
@@ -261,7 +275,7 @@ func applyStream(cfg applyCfg, n int) {
 				// (found by bisection on the library itself), or a little below it
 				plain := aopts{neg: a.neg, allow: a.allow, ensure: a.ensure, esc: a.esc}
 				if ob := runApply(doc, joinOps(ops), plain); ob.status == "ok" {
-					lo, hi := int64(0), int64(1<<17)
+					lo, hi := int64(0), int64(1<<20)
 					plain.limit = hi
 					if ob2 := runApply(doc, joinOps(ops), plain); ob2.status == "ok" {
 						for hi-lo > 1 {
@@ -2056,6 +2070,8 @@ func historyStream(n int) {
 		emit("history", hf...)
 	}
 }
+
+func pick64int(xs ...int) int { return xs[rng.Intn(len(xs))] }
 
 func minInt(a, b int) int {
 	if a < b {
